@@ -98,3 +98,65 @@ func concreteTime(wall uint64, ext int64) (time.Time, bool) {
 	}
 	return time.Unix(sec-unixToInternal, nsec).UTC(), true
 }
+
+// time.Time model: instants produced by the engine's clock are {wall: hasMonotonic, ext: ns, loc};
+// the methods below work on ext directly (no calendar arithmetic, no division by 1e9). The zero Time
+// is "long ago". Calendar fields and text formats are outside every claim.
+func timeNs(v Value) *term.Term {
+	t := v.(Struct)
+	wall, ext := t[0].(*term.Term), t[1].(*term.Term)
+	if wall.IsConst() && wall.U&hasMonotonic != 0 {
+		return ext
+	}
+	if wall.IsConst() && ext.IsConst() && wall.U == 0 && ext.U == 0 {
+		return term.BVC(64, uint64(1<<63+1<<61)) // the zero Time: far in the past (negative)
+	}
+	abort("UNMODELLED", "time.Time value outside the clock model: wall=%s ext=%s", wall, ext)
+	return nil
+}
+
+func mkTime(ns *term.Term, loc Value) Value {
+	return Struct{term.BVC(64, hasMonotonic), ns, loc}
+}
+
+func init() {
+	moreIntrinsics = append(moreIntrinsics, func(e *Engine) {
+		I := e.intrinsics
+		I["(time.Time).Add"] = func(e *Engine, st *State, th *Thread, fn *ssa.Function, a []Value, in *ssa.Call) Value {
+			t := a[0].(Struct)
+			return mkTime(term.BVBin(term.OpAdd, timeNs(t), a[1].(*term.Term)), t[2])
+		}
+		I["(time.Time).Sub"] = func(e *Engine, st *State, th *Thread, fn *ssa.Function, a []Value, in *ssa.Call) Value {
+			return term.BVBin(term.OpSub, timeNs(a[0]), timeNs(a[1]))
+		}
+		I["(time.Time).UTC"] = func(e *Engine, st *State, th *Thread, fn *ssa.Function, a []Value, in *ssa.Call) Value {
+			t := a[0].(Struct)
+			wall := t[0].(*term.Term)
+			if wall.IsConst() && wall.U&hasMonotonic != 0 {
+				return Struct{t[0], t[1], Ptr{}}
+			}
+			return Struct{t[0], t[1], Ptr{}}
+		}
+		I["(time.Time).IsZero"] = func(e *Engine, st *State, th *Thread, fn *ssa.Function, a []Value, in *ssa.Call) Value {
+			t := a[0].(Struct)
+			wall, ext := t[0].(*term.Term), t[1].(*term.Term)
+			if wall.IsConst() && wall.U&hasMonotonic != 0 {
+				return term.False
+			}
+			return term.And(term.Eq(wall, term.BVC(64, 0)), term.Eq(ext, term.BVC(64, 0)))
+		}
+		I["(time.Time).Before"] = func(e *Engine, st *State, th *Thread, fn *ssa.Function, a []Value, in *ssa.Call) Value {
+			return term.BVCmp(term.OpSLt, timeNs(a[0]), timeNs(a[1]))
+		}
+		I["(time.Time).After"] = func(e *Engine, st *State, th *Thread, fn *ssa.Function, a []Value, in *ssa.Call) Value {
+			return term.BVCmp(term.OpSLt, timeNs(a[1]), timeNs(a[0]))
+		}
+		I["(time.Time).Equal"] = func(e *Engine, st *State, th *Thread, fn *ssa.Function, a []Value, in *ssa.Call) Value {
+			return term.Eq(timeNs(a[0]), timeNs(a[1]))
+		}
+		I["(time.Time).Compare"] = func(e *Engine, st *State, th *Thread, fn *ssa.Function, a []Value, in *ssa.Call) Value {
+			x, y := timeNs(a[0]), timeNs(a[1])
+			return term.Ite(term.BVCmp(term.OpSLt, x, y), term.BVC(64, ^uint64(0)), term.Ite(term.Eq(x, y), term.BVC(64, 0), term.BVC(64, 1)))
+		}
+	})
+}
